@@ -272,6 +272,35 @@ def _perm(case, bad):
             if [p for p, c in zip(cl_pred, clear) if c] != [p for p, c in zip(pred.tolist(), clear) if c]:
                 bad("classes_[j] is not the label of probability column j", "%s,%s" % (cond, "identity permutation" if ident else "non-identity permutation"),
                     "classes_=%r classes_[argmax proba]=%r predict=%r %s" % (classes, cl_pred[:6], pred.tolist()[:6], desc))
+    # sample weights, one label carried by zero-weight rows only: the wrapper behaves as the plain classifier given the same weights
+    for a in assigns[:3]:
+        y = numpy.array([labels[c] for c in a], dtype=dtype)
+        for wname, wv in (("one label at weight 0", numpy.where(numpy.array(a) == a[0], 0.0, 2.0)),
+                          ("positive weights", 1.0 + numpy.arange(n) % 3)):
+            for perm, s_ in sorted(tab.items())[:3]:
+                desc = "labels=%r y=%r weights=%r (%s) random_state=%d clf=%s" % (labels, y.tolist(), wv.tolist(), wname, s_, case["clf"])
+                cnt += 1
+                rank = {lab: i for i, lab in enumerate(sorted(labels))}
+                try:
+                    ref = mk().fit(X, numpy.array([rank[labels[c]] for c in a]), sample_weight=wv)
+                except Exception:
+                    continue
+                try:
+                    m = TransformedTargetClassifier2(classifier=mk(), transformer=PermutationReciprocalTransformer(random_state=s_))
+                    m.fit(X, y, sample_weight=wv)
+                    proba = numpy.asarray(m.predict_proba(P))
+                    classes = list(numpy.asarray(m.classes_).tolist())
+                    pred = numpy.asarray(m.predict(P)).tolist()
+                except Exception as e:
+                    bad("classifier raises %s" % type(e).__name__, cond + ",sample weights", "%s %s" % (str(e)[:160], desc))
+                    continue
+                rp = ref.predict_proba(P)
+                if proba.shape != rp.shape or numpy.abs(proba - rp).max() > max(ptol, 1e-12):
+                    bad("probabilities differ from the plain classifier", cond + ",sample weights", "shapes %r %r %s" % (proba.shape, rp.shape, desc))
+                if sorted(classes, key=str) != sorted(labels, key=str):
+                    bad("classes_ is not the label set", cond + ",sample weights", "%r %s" % (classes, desc))
+                if any(p_ not in labels for p_ in pred):
+                    bad("predicted value is not an original label", cond + ",sample weights", "%r %s" % (pred[:6], desc))
     # two wrappers given the transformer by NAME ('permute'), fitted one after the other on different label sets, also nested:
     # each keeps predicting its own labels, with the probabilities of the plain classifier
     others = {"int": [5, 6, 7, 8], "negint": [0, 1, 2, 3], "float": [10.5, 11.5, 12.5, 14.0], "bool": [0, 1],
